@@ -34,7 +34,7 @@ def setup_worker(tier):
 
 def gen_case(rng, i, tier):
     p = G.gen(rng, stratified=True)
-    return dict(prog=p, k=6 if tier != "thorough" else 24, sseed=rng.randrange(1 << 30), tier=tier)
+    return dict(prog=p, k=6 if tier != "thorough" else 24, sseed=rng.randrange(1 << 30), tier=tier, disj=(i % 2 == 1))
 
 
 def run_case(case):
@@ -46,7 +46,7 @@ def run_case(case):
         return skip("reference too big")
     F = G.refine_with_reference(F, R)
     cls = judge.input_class(F)
-    text = G.to_text(prog)
+    text = G.to_text(prog, disj=case.get("disj", False))
     base = sut.evaluate_text(text, engine=DefaultEngine())
     feats = G.feat_list(F) + ["base_" + base["kind"]]
     v = judge.judge(base, R, F)
